@@ -935,6 +935,119 @@ def judge_svdopt(inp, obs, lr):
     return None
 
 
+# ------------------------------------------------------------------------------------------------
+# Generic defences for the helpers (they are functions: G2 input/output isolation, G3 no state between calls, G4 dtypes)
+# ------------------------------------------------------------------------------------------------
+PURE_FNS = ["diagonalize_form", "kernel", "orthogonal_complement", "sphere_through", "circle_through", "short_arc", "right_to_left",
+            "arc_include", "circle_angles", "find_isometry", "indefinite_orthogonalize", "make_orientation_preserving"]
+
+
+def _pure_args(rng, fn, variant=0):
+    """random float arguments for a helper; the rows argument of the two Gram–Schmidt helpers is consumed in place by the
+    library (clean-tree behaviour), every other argument must come back unchanged"""
+    g = lambda *sh: np.array([rng.gauss(0, 1) for _ in range(int(np.prod(sh)))]).reshape(sh)
+    n = rng.randint(2, 5)
+    b = rng.choice([(), (), (2,), (3,)])
+    if fn == "diagonalize_form":
+        B = np.array([fform(rng, n - q, q)[0] for q in [rng.randint(0, n) for _ in range(int(np.prod(b)) if b else 1)]]).reshape(b + (n, n))
+        return [B], {"order_eigenvalues": rng.choice(["signed", "minkowski"]), "reverse": rng.random() < 0.5}, []
+    if fn in ("kernel", "orthogonal_complement"):
+        m = rng.randint(1, n)
+        return [g(*(b + (m, n)))], ({} if fn == "kernel" else {"normalize": None}), []
+    if fn == "sphere_through":
+        return [2 * g(*(b + (n, n - 1)))], {}, []
+    if fn == "circle_through":
+        return [2 * g(*(b + (2,))) for _ in range(3)], {}, []
+    if fn in ("short_arc", "right_to_left"):
+        lim = 2 * PI if fn == "short_arc" else PI
+        return [np.array([rng.uniform(-lim, lim) * 0.99 for _ in range(2 * (int(np.prod(b)) if b else 1))]).reshape(b + (2,))], {}, []
+    if fn == "arc_include":
+        k = int(np.prod(b)) if b else 1
+        return [np.array([rng.uniform(-PI, PI) for _ in range(2 * k)]).reshape(b + (2,)),
+                np.array([rng.uniform(-PI, PI) for _ in range(k)]).reshape(b)], {}, []
+    if fn == "circle_angles":
+        return [g(*(b + (2,))), 3 * g(*(b + (3, 2)))], {}, []
+    if fn in ("find_isometry", "indefinite_orthogonalize"):
+        q = rng.randint(0, n)
+        while True:
+            B, _ = fform(rng, n - q, q)
+            k = rng.randint(1, n)
+            rows = g(*(b + (k, n)))
+            G = L.units(rows, 2) @ B @ L.units(rows, 2).swapaxes(-1, -2)
+            mins = [[np.linalg.det(Gi[:j, :j]) for j in range(1, k + 1)] for Gi in G]
+            if all(min(abs(x) for x in [m[0]] + [m[j] / m[j - 1] for j in range(1, k)]) > 0.05 for m in mins):
+                break
+        return [B, rows], ({"force_oriented": rng.random() < 0.5} if fn == "find_isometry" else {}), [1]
+    if fn == "make_orientation_preserving":
+        return [g(*(b + (n, n)))], {}, []
+    raise ValueError(fn)
+
+
+def _call(fn, args, kw):
+    f = getattr(utils, fn)
+    r = f(*args, **kw)
+    return [np.array(x, dtype=float, copy=True) for x in (r if isinstance(r, tuple) else (r,))], r
+
+
+def gen_purity(rng, n):
+    for _ in range(n):
+        yield {"fn": rng.choice(PURE_FNS), "other": rng.choice(PURE_FNS), "seed": rng.randint(0, 10 ** 9),
+               "view": rng.random() < 0.4, "dtype": rng.choice(["float64", "float64", "float32", "int_valued"])}
+
+
+def run_purity(inp):
+    import random
+    r = random.Random(inp["seed"])
+    fn = inp["fn"]
+    args, kw, consumed = _pure_args(r, fn)
+
+    def prep(a):
+        a = np.array(a, copy=True)
+        if inp["view"] and a.ndim >= 1:          # non-contiguous view of a larger buffer
+            big = np.zeros(a.shape[:-1] + (2 * a.shape[-1],), dtype=a.dtype)
+            big[..., ::2] = a
+            return big[..., ::2]
+        return a
+    a1 = [prep(a) for a in args]
+    snap = [np.array(a, copy=True) for a in a1]
+    ref, raw = _call(fn, a1, kw)
+    changed = max([float(np.max(np.abs(a - b))) for i, (a, b) in enumerate(zip(a1, snap)) if i not in consumed and a.size] + [0.0])
+    # (G3) the same helper on unrelated data of another shape, a different helper, then again on fresh copies of the first data
+    oargs, okw, _ = _pure_args(r, fn)
+    _call(fn, [np.array(a, copy=True) for a in oargs], okw)
+    o2, o2kw, _ = _pure_args(r, inp["other"])
+    _call(inp["other"], [np.array(a, copy=True) for a in o2], o2kw)
+    # (G2) overwrite what the first call returned, then ask again
+    for x in (raw if isinstance(raw, tuple) else (raw,)):
+        if isinstance(x, np.ndarray) and x.size and x.flags.writeable:
+            x[...] = 0
+    again, _ = _call(fn, [prep(a) for a in snap], kw)          # same values, same memory layout
+    same = all(x.shape == y.shape and (x.size == 0 or float(np.max(np.abs(x - y))) == 0.0) for x, y in zip(ref, again)) and len(ref) == len(again)
+    out = {"changed": changed, "repeatable": bool(same)}
+    # (G4) the same values in another dtype against the float64 reference
+    if inp["dtype"] == "float32" and fn not in ("kernel", "orthogonal_complement", "find_isometry", "indefinite_orthogonalize"):
+        a32 = [np.array(a, copy=True).astype(np.float32) for a in snap]
+        r64, _ = _call(fn, [a.astype(np.float64) for a in a32], kw)
+        r32, _ = _call(fn, a32, kw)
+        out["dtype_dev"] = max([float(np.max(np.abs(x - y)) / (1 + np.max(np.abs(y)))) for x, y in zip(r32, r64) if x.size] + [0.0]) \
+            if all(x.shape == y.shape for x, y in zip(r32, r64)) else float("inf")
+    return out
+
+
+def judge_purity(inp, obs, lr):
+    tags = {"fn": inp["fn"], "view": inp["view"], "dtype": inp["dtype"], "other": inp["other"]}
+    if "exc" in obs:
+        return {"expected": "a result", "observed": obs, "tags": dict(tags, exc=obs["exc"])}
+    if obs["changed"] > 0:
+        return {"expected": "arguments not modified", "observed": obs, "tags": dict(tags, input_isolation=True)}
+    if not obs["repeatable"]:
+        return {"expected": "the same answer when asked again after unrelated calls and after the first result was overwritten", "observed": obs,
+                "tags": dict(tags, state=True)}
+    if obs.get("dtype_dev", 0) > 2e-3:
+        return {"expected": "float32 input agrees with the float64 computation on the same values (2e-3)", "observed": obs, "tags": dict(tags, dtype_order=True)}
+    return None
+
+
 CLAUSES = [
     Clause("gs_corr", "corr", gen_gs, run_gs, judge_gs, lean=lean_gs, site="utils.indefinite_orthogonalize",
            budget={"quick": 160, "thorough": 4000},
@@ -972,6 +1085,9 @@ CLAUSES = [
     Clause("svd_options_oracle", "oracle", gen_svdopt, run_svdopt, judge_svdopt, site="numerical.svd_kernel",
            budget={"quick": 200, "thorough": 5000},
            what="svd_kernel(assume_full_rank=True) and svd_kernel(matching_rank=False, with_dimensions, with_loc) on batches of mixed rank incl. trivial kernels: per-rank bases annihilated, orthonormal, n − rank columns"),
+    Clause("purity_oracle", "oracle", gen_purity, run_purity, judge_purity, site="utils helpers (isolation / statelessness / dtype)",
+           budget={"quick": 300, "thorough": 8000},
+           what="G2–G4 for every helper: arguments (incl. non-contiguous views) come back unchanged, the answer is bit-identical when asked again after the same and other helpers ran on unrelated data and after the first result was overwritten in place, float32 inputs agree with float64"),
     Clause("sphere_oracle", "oracle", gen_spho, run_spho, judge_spho, site="utils.sphere_through / circle_through",
            budget={"quick": 400, "thorough": 6000},
            what="float points in general position: every point at distance radius from the centre"),
